@@ -88,7 +88,7 @@ def level1_configs(tier):
 
 def body_write_read(E, cfg):
     nrows = cfg["nrows"]
-    world = multipass.build_world(E, dict(KR=4, KQ=4, nq=max(nrows, 1), nrefs=1, first=[1]))
+    world = multipass.build_world(E, dict(KR=4, KQ=4, nq=max(nrows, 1), nrefs=1, first=["start+"]))
     rows = []
     for k in range(nrows):
         qm = world["queries"][k]
